@@ -28,7 +28,7 @@ func VerifC01_Api2() {
 	w := vInit()
 	vBindHealth()
 	verifBind("os.Stat", vStatDir)
-	scen := []string{"missing.sibling", "restarted.dep", "update.adds.both", "dep.stopped.before.ready.line", "dep.restarted.before.ready.line", "started.dep.stopped.while.pending", "started.dep.caught.by.shutdown.while.pending", "healthy.dep.in.its.restart.back-off"}[verifChooseK("scenario", 8)]
+	scen := []string{"missing.sibling", "restarted.dep", "update.adds.both", "dep.stopped.before.ready.line", "dep.restarted.before.ready.line", "started.dep.stopped.while.pending", "started.dep.caught.by.shutdown.while.pending", "healthy.dep.in.its.restart.back-off", "failing.dep.stopped.in.its.restart.back-off"}[verifChooseK("scenario", 9)]
 	verifShape(scen)
 	var mu sync.Mutex
 	condMet := false // ground truth of the one condition under test
@@ -168,6 +168,28 @@ func VerifC01_Api2() {
 		_ = r.StartProcess("web")
 		verifSettle()
 		verifAssert("web.not.launched.while.dep.is.down", vGet(w.starts, "web") == 0)
+		_ = r.ShutDownProject()
+		<-runDone
+	case "failing.dep.stopped.in.its.restart.back-off":
+		// db (restart on_failure) fails with exit code 3 and is stopped through the API while it
+		// waits out its back-off: its last command did not exit with 0, web
+		// (process_completed_successfully on db) must not be launched
+		db := vConf("db", nil)
+		db.RestartPolicy = types.RestartPolicyConfig{Restart: types.RestartPolicyOnFailure, BackoffSeconds: 5}
+		web := vConf("web", map[string]string{"db": types.ProcessConditionCompletedSuccessfully})
+		keep := vConf("keep", nil)
+		w.behav["db"] = &vBehav{untilStop: []bool{true}, codes: []int{3}}
+		w.behav["web"] = &vBehav{untilStop: []bool{true}}
+		w.behav["keep"] = &vBehav{untilStop: []bool{true}}
+		r := vRunner(vProject(db, web, keep), false)
+		go func() { runDone <- r.Run() }()
+		verifQuiesce()
+		vCrash("db") // exits with 3 by itself
+		verifSettle()
+		verifAssert("db.in.back-off", vGet(w.alive, "db") == 0 && vGet(w.exits, "db") == 1)
+		_ = r.StopProcess("db")
+		verifQuiesce()
+		verifAssert("web.not.launched.after.a.failed.dependency", vGet(w.starts, "web") == 0)
 		_ = r.ShutDownProject()
 		<-runDone
 	case "update.adds.both":
